@@ -2,6 +2,7 @@ package main
 
 import (
 	"fmt"
+	"go/token"
 	"go/types"
 	"sort"
 	"strings"
@@ -171,7 +172,7 @@ func checkC04(c *Ctx) {
 			continue
 		}
 		e1Funcs++
-		c04LocalErrors(c, fn, errCalls)
+		localErrorDiscipline(c, "C04.E1", fn, errCalls)
 	}
 	r.Analysed["functions_with_error_calls_on_data_path"] = e1Funcs
 
@@ -362,8 +363,9 @@ func checkC04(c *Ctx) {
 	}
 }
 
-// c04LocalErrors: intra-procedural rule E1 for one function.
-func c04LocalErrors(c *Ctx, fn *ssa.Function, errCalls []ssa.CallInstruction) {
+// localErrorDiscipline: intra-procedural rule (C04.E1, C16.X3) for one function: each listed fallible call's error is
+// tested and, where it is non-nil, the function returns a non-nil error or panics; it is never discarded.
+func localErrorDiscipline(c *Ctx, rule string, fn *ssa.Function, errCalls []ssa.CallInstruction) {
 	r, p := c.R, c.P
 	key := FuncKey(fn)
 	ord := ordinal{}
@@ -387,13 +389,14 @@ func c04LocalErrors(c *Ctx, fn *ssa.Function, errCalls []ssa.CallInstruction) {
 		}
 		k := ord.next(key + "#" + calleeName(ci))
 		if !used {
-			r.Bad("C04.E1", k, p.Pos(ci.Pos()), "the error result of "+calleeName(ci)+" is discarded on the data path")
+			r.Bad(rule, k, p.Pos(ci.Pos()), "the error result of "+calleeName(ci)+" is discarded on the data path")
 			continue
 		}
 		_ = k
 	}
-	// path rule: run the function alone, nothing inlined, no panics forked
-	cfg := PathConfig{P: p, Inline: func(*ssa.Function) bool { return false }, MayPanic: func(ssa.CallInstruction, types.Object) bool { return false },
+	// branch rule: for every nil test of the error, explore the paths that start on the non-nil side (nothing inlined,
+	// no panics forked); each must return a non-nil error (or panic / exit)
+	cfg := PathConfig{P: p, Inline: func(*ssa.Function) bool { return false }, MayPanic: func(ssa.CallInstruction, types.Object) bool { return false }, MaxPaths: 5000,
 		ResultHint: func(callee types.Object, idx int) Nilness {
 			switch funcFullName(callee) {
 			case "errors.New", "fmt.Errorf":
@@ -401,54 +404,101 @@ func c04LocalErrors(c *Ctx, fn *ssa.Function, errCalls []ssa.CallInstruction) {
 			}
 			return NilUnknown
 		}}
-	eng := newPathEngine(cfg)
-	outs, _ := eng.Run(fn, nil, nil)
-	perCall := map[ssa.Instruction]string{}
-	perCallPaths := map[ssa.Instruction]int{}
-	for i := range outs {
-		o := &outs[i]
-		if o.Exit == "cut" {
-			continue
-		}
-		for _, t := range o.Trace {
-			if t.Kind != "err" || t.Fn != fn {
-				continue
-			}
-			perCallPaths[t.Instr]++
-			switch o.Exit {
-			case "panic":
-			case "return":
-				if errIdxOfFn < 0 {
-					perCall[t.Instr] = "the function has no error result: a non-nil error from " + t.Label + " cannot be reported to the caller"
-				} else if o.NilnessOf(o.Results[errIdxOfFn]) != IsNonNil {
-					perCall[t.Instr] = fmt.Sprintf("on the branch where the error of %s is non-nil the function returns an error that is %s; decisions: %s", t.Label, map[Nilness]string{IsNil: "nil", NilUnknown: "not known to be non-nil"}[o.NilnessOf(o.Results[errIdxOfFn])], strings.Join(o.Decisions, "; "))
-				}
-			default:
-				perCall[t.Instr] = "the path ends with " + o.Exit
-			}
-		}
-	}
 	ord2 := ordinal{}
 	for _, ci := range errCalls {
 		k := ord2.next(key + "#" + calleeName(ci))
-		ins := ci.(ssa.Instruction)
-		if msg, bad := perCall[ins]; bad {
-			r.Bad("C04.E1", k, p.Pos(ci.Pos()), msg)
+		v, ok := ci.(ssa.Value)
+		if !ok {
 			continue
 		}
-		if perCallPaths[ins] > 0 {
-			r.OK("C04.E1", k, p.Pos(ci.Pos()), fmt.Sprintf("tested against nil; %d failing path(s) all return a non-nil error or panic", perCallPaths[ins]))
-			continue
-		}
-		// never tested: acceptable only when the error value is returned as is
-		if c04Returned(ci) {
-			r.OK("C04.E1", k, p.Pos(ci.Pos()), "the error is returned to the caller unchanged")
-		} else if _, isBad := perCall[ins]; !isBad {
-			// discarded results were reported above; anything else is an unrecognised idiom
-			if v, ok := ci.(ssa.Value); ok && len(nonDebugRefs(v)) == 0 {
-				continue
+		idx := resultHasError(ci.Common().Signature())
+		var errVals []ssa.Value
+		if ci.Common().Signature().Results().Len() == 1 {
+			errVals = append(errVals, v)
+		} else {
+			for _, ref := range nonDebugRefs(v) {
+				if ex, ok := ref.(*ssa.Extract); ok && ex.Index == idx {
+					errVals = append(errVals, ex)
+				}
 			}
-			r.Unknown("C04.E1", k, p.Pos(ci.Pos()), "the error of "+calleeName(ci)+" is neither compared with nil nor returned: unrecognised handling idiom")
+		}
+		// the error may be kept in a local cell (named result / reassigned variable): follow one store-load hop
+		var tested []ssa.Value
+		for _, ev := range errVals {
+			tested = append(tested, ev)
+			for _, ref := range nonDebugRefs(ev) {
+				if st, ok := ref.(*ssa.Store); ok && st.Val == ev {
+					if a, ok := st.Addr.(*ssa.Alloc); ok {
+						for _, r2 := range nonDebugRefs(a) {
+							if ld, ok := r2.(*ssa.UnOp); ok && ld.Op == token.MUL && ld.Block() == st.Block() {
+								tested = append(tested, ld)
+							}
+						}
+					}
+				}
+			}
+		}
+		if len(errVals) == 0 {
+			continue // discarded: reported above
+		}
+		nTests, failing := 0, 0
+		msg := ""
+		for _, ev := range tested {
+			for _, ref := range nonDebugRefs(ev) {
+				bo, ok := ref.(*ssa.BinOp)
+				if !ok || !(isNilConst(bo.X) || isNilConst(bo.Y)) || (bo.Op != token.EQL && bo.Op != token.NEQ) {
+					continue
+				}
+				for _, r2 := range nonDebugRefs(bo) {
+					iff, ok := r2.(*ssa.If)
+					if !ok {
+						continue
+					}
+					nTests++
+					blk := iff.Block()
+					nonNil := blk.Succs[0]
+					if bo.Op == token.EQL {
+						nonNil = blk.Succs[1]
+					}
+					eng := newPathEngine(cfg)
+					preset := map[ssa.Value]AV{}
+					for _, t := range tested {
+						preset[t] = AV{Kind: avNonNil, Origin: ci.(ssa.Instruction), Index: idx}
+					}
+					outs := eng.RunFrom(fn, nonNil, blk, preset)
+					if eng.over {
+						msg = "the non-nil branch of the error test leads into too many paths to enumerate (it does not leave the function promptly)"
+						continue
+					}
+					for i := range outs {
+						o := &outs[i]
+						switch o.Exit {
+						case "panic", "exit":
+							failing++
+						case "cut":
+						case "return":
+							failing++
+							if errIdxOfFn < 0 {
+								msg = "the function has no error result: a non-nil error from " + calleeName(ci) + " cannot be reported to the caller"
+							} else if o.NilnessOf(o.Results[errIdxOfFn]) != IsNonNil {
+								msg = fmt.Sprintf("on the branch where the error of %s is non-nil the function returns an error that is %s; decisions: %s", calleeName(ci), map[Nilness]string{IsNil: "nil", NilUnknown: "not known to be non-nil"}[o.NilnessOf(o.Results[errIdxOfFn])], strings.Join(o.Decisions, "; "))
+							}
+						default:
+							msg = "the path ends with " + o.Exit
+						}
+					}
+				}
+			}
+		}
+		switch {
+		case msg != "":
+			r.Bad(rule, k, p.Pos(ci.Pos()), msg)
+		case nTests > 0:
+			r.OK(rule, k, p.Pos(ci.Pos()), fmt.Sprintf("tested against nil (%d test(s)); the %d path(s) on the non-nil side all return a non-nil error or panic", nTests, failing))
+		case c04Returned(ci):
+			r.OK(rule, k, p.Pos(ci.Pos()), "the error is returned to the caller unchanged")
+		default:
+			r.Unknown(rule, k, p.Pos(ci.Pos()), "the error of "+calleeName(ci)+" is neither compared with nil nor returned: unrecognised handling idiom")
 		}
 	}
 }
